@@ -217,6 +217,41 @@ def runAsm (args : List String) : String :=
       o ++ "\t" ++ fmtBool safe ++ "\t" ++ toString fin.loads.length
   | _ => "bad-op\t0\t0"
 
+def hexByte (b : UInt8) : String :=
+  let d (n : Nat) : Char := if n < 10 then Char.ofNat (48 + n) else Char.ofNat (87 + n)
+  String.ofList [d (b.toNat / 16), d (b.toNat % 16)]
+
+/-- `step <form index> <328-byte machine state, hex>`: one step of the instruction semantics on the given registers and vector
+    lanes (11 general registers little-endian, X0..X2, Y1..Y6); answer: the resulting state in the same format and `ZF CF signed-less`. -/
+def runStep (args : List String) : String :=
+  match args with
+  | idx :: hex :: _ =>
+    let bytes := (parseHex hex).toArray
+    match Gen.Asm.stepForms[idx.toNat!]? with
+    | none => "bad-form"
+    | some (_, ins) =>
+      if bytes.size != 328 then "bad-state" else
+      let le (o : Nat) : Nat := (List.range 8).foldr (fun k acc => acc * 256 + bytes[o + k]!.toNat) 0
+      let regIdx : Asm.Reg → Nat
+        | .AX => 0 | .BX => 1 | .CX => 2 | .DX => 3 | .SI => 4 | .DI => 5 | .R8 => 6 | .R10 => 7 | .R11 => 8 | .R12 => 9 | .R13 => 10
+      let xIdx : Asm.XReg → Nat | .X0 => 0 | .X1 => 1 | .X2 => 2
+      let yIdx : Asm.YReg → Nat | .Y1 => 0 | .Y2 => 1 | .Y3 => 2 | .Y4 => 3 | .Y5 => 4 | .Y6 => 5
+      let st : Asm.St :=
+        { r := fun q => le (8 * regIdx q)
+          x := fun q j => if j < 16 then bytes[88 + 16 * xIdx q + j]! else 0
+          y := fun q j => if j < 32 then bytes[136 + 32 * yIdx q + j]! else 0
+          zf := false, cf := false, lt := false, avx2 := true, popcnt := true, args := fun _ => 0, tail := none
+          mem := fun _ => 0, loads := [], out := none }
+      match Asm.step st ins with
+      | none => "none"
+      | some (s', _) =>
+        let regs := [Asm.Reg.AX, .BX, .CX, .DX, .SI, .DI, .R8, .R10, .R11, .R12, .R13]
+        let rs := regs.foldl (fun acc q => acc ++ String.join ((List.range 8).map (fun k => hexByte (UInt8.ofNat (s'.r q / 256 ^ k % 256))))) ""
+        let xs := [Asm.XReg.X0, .X1, .X2].foldl (fun acc q => acc ++ String.join ((List.range 16).map (fun j => hexByte (s'.x q j)))) ""
+        let ys := [Asm.YReg.Y1, .Y2, .Y3, .Y4, .Y5, .Y6].foldl (fun acc q => acc ++ String.join ((List.range 32).map (fun j => hexByte (s'.y q j)))) ""
+        rs ++ xs ++ ys ++ " " ++ fmtBool s'.zf ++ fmtBool s'.cf ++ fmtBool s'.lt
+  | _ => "bad-op"
+
 partial def loop (h : IO.FS.Stream) (out : IO.FS.Stream) : IO Unit := do
   let line ← h.getLine
   if line.isEmpty then
@@ -226,6 +261,7 @@ partial def loop (h : IO.FS.Stream) (out : IO.FS.Stream) : IO Unit := do
   match toks with
   | "flush" :: _ => out.flush
   | "asm" :: args => out.putStrLn (runAsm args)
+  | "step" :: args => out.putStrLn (runStep args)
   | fn :: cfg :: args =>
     let (a, s) := run fn (mkCfg cfg) args
     out.putStrLn (a ++ "\t" ++ s ++ "\t" ++ runM fn (mkCfg cfg) args)
